@@ -123,7 +123,7 @@ class C16(Spec):
     impl_jobs = 4
     rule = ('grids as in C15 (six sign classes, three spacing modes, dimension 1-3); d/dx: points strictly inside '
             'cells (odd eighths), all five methods, general and fixed variants, compared with a 5-point difference '
-            'of the returned values, also as histories (same object queried outside the table first, then one call per point); value gradients: training_gradients / MetaModelStructuredComp(training_data_'
+            'of the returned values, akima also with the smoothing option delta_x > 0 on 2-D/3-D tables, also as histories (same object queried outside the table first, then one call per point); value gradients: training_gradients / MetaModelStructuredComp(training_data_'
             'gradients) for slinear, lagrange2, lagrange3, cubic with tables v, w, a*v+w; evaluate_spline and '
             'SplineComp (2-3 splines with different control points on one component) for slinear, lagrange2, lagrange3, '
             'cubic, akima, bsplines; the public gradient() API in call sequences on one object (interpolate then gradient, '
@@ -132,13 +132,21 @@ class C16(Spec):
 
     def gen(self, tier, rng):
         cases = []
-        n1, n2, n3 = (600, 600, 260) if tier == 'quick' else (6000, 6000, 2600)
+        n1, n2, n3 = (500, 500, 220) if tier == 'quick' else (5000, 5000, 2200)
         for k in range(n1):
             method = METHODS[k % len(METHODS)]
             nd = rng.choice([1, 1, 2, 2, 3])
             variant = 'fixed' if (method, nd) in g15.FIXED and rng.random() < 0.3 else 'general'
             cases.append(gen_grad(rng, method, nd, variant))
-        for k in range(260 if tier == 'quick' else 2600):
+        # akima with the smoothing option delta_x > 0 on 2-D / 3-D tables (non-monotone random data, so the
+        # slope differences change sign and fall inside / outside the +-delta_x band): every gradient component
+        for k in range(90 if tier == 'quick' else 900):
+            c = gen_grad(rng, 'akima', rng.choice([2, 2, 3]), 'general')
+            c.pop('history', None)
+            c.pop('pre', None)
+            c['delta_x'] = pj(rng.choice([Fr(1, 20), Fr(1, 10), Fr(1, 4), Fr(1, 2), Fr(2)]))
+            cases.append(c)
+        for k in range(200 if tier == 'quick' else 2000):
             method = METHODS[k % len(METHODS)]
             nd = rng.choice([1, 2, 2, 3])
             variant = 'fixed' if (method, nd) in g15.FIXED and rng.random() < 0.3 else 'general'
